@@ -592,6 +592,9 @@ MUTANTS += [
     {"name": "rate-builder-strips-grain-through-alias", "file": "naunet/grains/hh93grain.py", "old": "        [spec] = [s for s in reac.reactants if not s.is_grain]\n", "new": "        others = reac.reactants\n        others.remove(next(s for s in others if s.is_grain))\n        [spec] = others\n", "rules": ["R0"]},
     {"name": "header-macro-last-key-printf", "file": MACROS, "old": "#define IDX_ELEM_{{ spec.element_count.keys() | first }} {{ loop.index0 }}", "new": "{{ \"#define IDX_ELEM_%s %d\" | format(spec.element_count | last, loop.index0) }}", "rules": ["R1"]},
     {"name": "element-count-try-except-overwrites", "file": SPECIES, "old": "        if element in self.element_count.keys():\n            self.element_count[element] += count\n        else:\n            self.element_count[element] = count\n", "new": "        try:\n            self.element_count[element] = count\n        except KeyError:\n            self.element_count[element] += count\n", "rules": ["R6"]},
+    {"name": "eq-any-of-generator-ice-without-charge", "edits": [
+        {"file": SPECIES, "old": '            return (\n                (self.is_electron and o.is_electron)\n                or (\n                    self.is_grain\n                    and o.is_grain\n                    and self.grain_group == o.grain_group\n                    and self.charge == o.charge\n                )\n                or (\n                    self.is_surface\n                    and o.is_surface\n                    and self.surface_group == o.surface_group\n                    and self.charge == o.charge\n                    and self.basename == o.basename\n                )\n                or self.name == o.name\n            )\n', "new": '            return any(self._same(o))\n'},
+        {"file": SPECIES, "old": "    def __hash__(self) -> int:\n", "new": '    def _same(self, o):\n        yield self.is_electron and o.is_electron\n        yield self.is_grain and o.is_grain and self.grain_group == o.grain_group and self.charge == o.charge\n        yield self.is_surface and o.is_surface and self.surface_group == o.surface_group and self.basename == o.basename\n        yield self.name == o.name\n\n    def __hash__(self) -> int:\n'}], "rules": ["R2"]},
     {"name": "alias-single-M", "file": SPECIES, "old": 'else "M" * abs(self.charge),', "new": 'else "M",', "rules": ["R4"]},
 ]
 BENIGN = [
@@ -626,5 +629,8 @@ BENIGN = [
     {"name": "term-printf-format", "file": PHYS, "old": '{{ "{:.1f}".format(natom) ~ "*" ~ ab ~ " + "}}', "new": '{{ "%.1f*%s + " | format(natom, ab) }}'},
     {"name": "abund-symbols-materialised", "file": PHYS, "old": '{% set specabund = network.species | map(attribute="alias") | map("prefix", "y[IDX_") | map("suffix", "]") -%}', "new": '{% set specabund = network.species | map(attribute="alias") | map("prefix", "y[IDX_") | map("suffix", "]") | list -%}', "count": 1},
     {"name": "header-loop-over-mapped-counts", "file": MACROS, "old": "{% for spec in network.elements %}\n#define IDX_ELEM_{{ spec.element_count.keys() | first }} {{ loop.index0 }}", "new": "{% for counts in network.elements | map(attribute=\"element_count\") %}\n{{ \"#define IDX_ELEM_\" ~ (counts | first) ~ \" \" ~ loop.index0 }}"},
+    {"name": "eq-any-of-generator", "edits": [
+        {"file": SPECIES, "old": '            return (\n                (self.is_electron and o.is_electron)\n                or (\n                    self.is_grain\n                    and o.is_grain\n                    and self.grain_group == o.grain_group\n                    and self.charge == o.charge\n                )\n                or (\n                    self.is_surface\n                    and o.is_surface\n                    and self.surface_group == o.surface_group\n                    and self.charge == o.charge\n                    and self.basename == o.basename\n                )\n                or self.name == o.name\n            )\n', "new": '            return any(self._same(o))\n'},
+        {"file": SPECIES, "old": "    def __hash__(self) -> int:\n", "new": '    def _same(self, o):\n        yield self.is_electron and o.is_electron\n        yield self.is_grain and o.is_grain and self.grain_group == o.grain_group and self.charge == o.charge\n        yield self.is_surface and o.is_surface and self.surface_group == o.surface_group and self.charge == o.charge and self.basename == o.basename\n        yield self.name == o.name\n\n    def __hash__(self) -> int:\n'}]},
     {"name": "eq-disjuncts-reordered", "file": SPECIES, "old": "                (self.is_electron and o.is_electron)\n                or (", "new": "                self.name == o.name\n                or (self.is_electron and o.is_electron)\n                or ("},
 ]
